@@ -629,6 +629,9 @@ def run_history(ctx, rounds, dim, deadline, state_budget=60, cancel=False, db_fa
             res["encoded"] |= set(E.short(n) for n in eng.encoded)
             label = f"round {rno + 1} ({rd})"
             for f in finals:
+                if time.time() > deadline + 300:
+                    res["unknown"].append("post-processing of the enumerated paths: engine deadline reached")
+                    break
                 n_paths += 1
                 res["paths"] += 1
 
